@@ -81,6 +81,7 @@ func drawAnyStyle(t *rapid.T) Style {
 	st.SeqIndentless = rapid.Bool().Draw(t, "il")
 	st.DocStart = rapid.Bool().Draw(t, "ds")
 	st.DocEnd = rapid.Bool().Draw(t, "de")
+	st.BOM = rapid.Bool().Draw(t, "bom")
 	st.FlowPM, st.FlowBreakPM, st.CompactPM, st.ExplicitPM = pm("flow"), pm("fb"), pm("compact"), pm("explicit")
 	st.CommentPM, st.TrailPM, st.BlankPM = pm("comment"), pm("trail"), pm("blank")
 	st.PlainPM, st.SinglePM, st.LiteralPM, st.KeyPlainPM, st.KeySinglePM = pm("plain"), pm("single"), pm("literal"), pm("kp"), pm("ks")
